@@ -15,7 +15,7 @@ from vf.props.c18 import harvest_words
 
 from armulator.armv6.configurations import configurations
 
-CFGS = ['v6', 'v7', 'v6-nosec', 'v7-vmsa', 'v5', 'v7r']
+CFGS = ['v6', 'v7', 'v6-nosec', 'v7-vmsa', 'v5', 'v7r', 'v7-virt']
 
 
 def program_case(rng, cfgname, steps=1):
@@ -36,7 +36,12 @@ def program_case(rng, cfgname, steps=1):
             else:
                 words.append(rng.getrandbits(32))
         code = b''.join(e1.enc_arm(w) for w in words)
-    case = gen.step_case(rng, cfgname, thumb, code, code_base=0x8000, e=0, steps=steps)
+    if cfgname == 'v7-virt' and rng.random() < 0.7:
+        # a Non-secure guest under stage-2 translation whose data pages fault: the syndromes reported to Hyp mode are part of the trace
+        case = gen.step_case(rng, cfgname, thumb, code, code_base=0x8000, e=0, steps=steps, ns=True, mmu=False, mode=rng.choice(('svc', 'usr', 'sys', 'irq')), hooked=True)
+        gen.stage2_map(rng, case)
+    else:
+        case = gen.step_case(rng, cfgname, thumb, code, code_base=0x8000, e=0, steps=steps)
     st_ = case['state']
     mode = gen.MODE_NAME[st_['cpsr'] & 31]
     for n in range(8):
@@ -85,7 +90,7 @@ def snap_check(cfgname, case, k, j, other, osteps, wfe):
     step_trace(cpu4, osteps)
     if wfe:
         cpu4.is_wait_for_event = True
-    target.apply_state(cpu4, {kk: v for kk, v in mid.items() if kk != 'cplog'})
+    target.apply_state(cpu4, {kk: v for kk, v in mid.items() if kk != 'cplog' or hasattr(cpu4, 'cplog')})          # (the coprocessor log is the harness's own record)
     t4 = step_trace(cpu4, j)
     stores = any(pre_mem[m] != mid[m] for m in pre_mem if m.startswith('mem'))
     exc_taken = (mid['cpsr'] & 31) != (pre_mem['cpsr'] & 31)
@@ -105,6 +110,7 @@ def shard_snapshot(seed, count):
         k, j = rng.randrange(0, 8), rng.randrange(1, 12)
         other = program_case(rng, cfgname)
         other['mems'] = case['mems']
+        other['hooked'] = case.get('hooked', False)          # same flavour of instance, different past
         osteps, wfe = rng.randrange(1, 10), rng.random() < 0.5
         bad, stores, exc_taken = snap_check(cfgname, case, k, j, other, osteps, wfe)
         acc.case(stores or exc_taken or j >= 3, ('snap', cfgname, case['poke'][0][1][:64], case['state']['cpsr'], k, j), cls='snapshot',
